@@ -68,6 +68,7 @@ type CallRec struct {
 	StaleAtStart     bool
 	Retry            bool
 	AttemptsBefore   int
+	AppendVersion    int // index of the version this call's append created
 	ListChanges      int // versions of tables.list created by this call (independent of the model)
 	OpenDigest       string // digest of the view right after a successful open (porcupine read output)
 	TimeFaulted      bool // a time fault hit this task while the call was executing
@@ -667,6 +668,7 @@ func (w *World) modelAppend(prev, v *Version, cr *CallRec, ev *simrt.Event) {
 	}
 	v.Model = m
 	cr.Appends++
+	cr.AppendVersion = v.N
 }
 
 func (w *World) modelReplace(prev, v *Version, cr *CallRec, ev *simrt.Event) {
